@@ -9,11 +9,12 @@ func Register(reg *kernel.Registry) {
 		{"teleport application (one chain): aggregate module (conversions, registry, proposals), rvesting BeginBlocker, bank, gov, params, staking/distribution, EVM with the shipped ERC-20 byte code (honest, delayed-malicious, balance-manipulating), staking/gov system contracts and adapters; everything through BaseApp ABCI calls"},
 		{"Tendermint consensus (stub proposer)", "users and governance actor (simulator actors)", "token self-destruct (privileged state edit, as in the repository's own tests)"},
 	}
-	for _, p := range []string{"C11", "C12", "C20"} {
+	for _, p := range []string{"C11", "C12", "C17", "C20"} {
 		reg.Serves[p] = append(reg.Serves[p], "ag")
 	}
 	reg.Serves["C13"] = append(reg.Serves["C13"], "ag")
 	reg.MinProbes["C11"] = []string{"convert.ok.convcoin", "convert.ok.converc", "convert.rejected"}
 	reg.MinProbes["C12"] = []string{"proposal.PROPOSAL_STATUS_PASSED"}
 	reg.MinProbes["C20"] = []string{"vest.released"}
+	reg.MinProbes["C17"] = []string{"stake.eoa.delegate.ok=true", "stake.forged.delegate.ok=true"}
 }
